@@ -14,6 +14,37 @@ from .C08 import check_exact_read
 NONRAISING = {"_geterrortext", "geterrortext"}
 
 
+def check_close_all(ctx: Ctx, oid: str) -> None:
+    repo = ctx.repo
+    f_fin = repo.func(f"{GB}.ChannelFactory._finished_receiving")
+    with ctx.obligation(oid, "close-all") as ob:
+        loops = [n for n in repo.own_nodes(f_fin) if isinstance(n, ast.For)]
+        seen = {}
+        for lp in loops:
+            it = unparse(lp.iter)
+            var = unparse(lp.target)
+            calls = [c for s in lp.body for c in ast.walk(s) if isinstance(c, ast.Call)]
+            if "self._channels" in it:
+                ok = any(callee_attr(c) == "_local_close" and unparse(c.args[0]) == var and any(k.arg == "sendonly" and repo.fold_in(k.value, f_fin) is True for k in c.keywords) for c in calls)
+                seen["channels"] = ok
+                ob.site(f_fin, lp, "every registered channel -> _local_close(id, sendonly=True)", ok=ok)
+            elif "self._callbacks" in it:
+                ok = any(callee_attr(c) == "_no_longer_opened" and unparse(c.args[0]) == var for c in calls)
+                seen["callbacks"] = ok
+                ob.site(f_fin, lp, "every registered callback -> _no_longer_opened(id) (endmarker)", ok=ok)
+            if "_list(" not in it and "list(" not in it:
+                ob.violation(f_fin, lp, "the shutdown sweep iterates a table that is mutated by the calls inside the loop (no snapshot)")
+        if not seen.get("channels"):
+            ob.violation(f_fin, f_fin.node, "_finished_receiving does not close every registered channel (sendonly): blocked receivers never see EOF", construct="no channel sweep")
+        if not seen.get("callbacks"):
+            ob.violation(f_fin, f_fin.node, "_finished_receiving does not fire the endmarker of every registered callback", construct="no callback sweep")
+        # the flag is set before the sweep
+        st = [n for n in repo.own_nodes(f_fin) if isinstance(n, ast.Assign) and "finished" in unparse(n.targets[0])]
+        if st and loops and st[0].lineno > min(l.lineno for l in loops):
+            ob.violation(f_fin, st[0], "the finished flag is set after the sweep: a channel created in between is never closed")
+
+
+
 def check(ctx: Ctx) -> None:
     repo = ctx.repo
     ctx.decides = ("short/empty reads raise EOFError and a Message exists only after both exact reads; every handled way out of the "
@@ -123,31 +154,7 @@ def check(ctx: Ctx) -> None:
         if not cfe.dominated_by(sd[0].id, nc[0].id):
             ob.violation(fre, sd[0].ast, "remote_exec can send CHANNEL_EXEC without passing ChannelFactory.new()")
 
-    with ctx.obligation("C04.e", "close-all") as ob:
-        loops = [n for n in repo.own_nodes(f_fin) if isinstance(n, ast.For)]
-        seen = {}
-        for lp in loops:
-            it = unparse(lp.iter)
-            var = unparse(lp.target)
-            calls = [c for s in lp.body for c in ast.walk(s) if isinstance(c, ast.Call)]
-            if "self._channels" in it:
-                ok = any(callee_attr(c) == "_local_close" and unparse(c.args[0]) == var and any(k.arg == "sendonly" and repo.fold_in(k.value, f_fin) is True for k in c.keywords) for c in calls)
-                seen["channels"] = ok
-                ob.site(f_fin, lp, "every registered channel -> _local_close(id, sendonly=True)", ok=ok)
-            elif "self._callbacks" in it:
-                ok = any(callee_attr(c) == "_no_longer_opened" and unparse(c.args[0]) == var for c in calls)
-                seen["callbacks"] = ok
-                ob.site(f_fin, lp, "every registered callback -> _no_longer_opened(id) (endmarker)", ok=ok)
-            if "_list(" not in it and "list(" not in it:
-                ob.violation(f_fin, lp, "the shutdown sweep iterates a table that is mutated by the calls inside the loop (no snapshot)")
-        if not seen.get("channels"):
-            ob.violation(f_fin, f_fin.node, "_finished_receiving does not close every registered channel (sendonly): blocked receivers never see EOF", construct="no channel sweep")
-        if not seen.get("callbacks"):
-            ob.violation(f_fin, f_fin.node, "_finished_receiving does not fire the endmarker of every registered callback", construct="no callback sweep")
-        # the flag is set before the sweep
-        st = [n for n in repo.own_nodes(f_fin) if isinstance(n, ast.Assign) and "finished" in unparse(n.targets[0])]
-        if st and loops and st[0].lineno > min(l.lineno for l in loops):
-            ob.violation(f_fin, st[0], "the finished flag is set after the sweep: a channel created in between is never closed")
+    check_close_all(ctx, "C04.e")
 
     with ctx.obligation("C04.f", "send-maps-errors") as ob:
         fsend = repo.func(f"{GB}.BaseGateway._send")
